@@ -811,6 +811,12 @@ pub fn finish(ctx: &RunCtx) -> i32 {
             println!("KNOWN-FINDING: property={} {} [key={} observed={}]", ctx.property, f.what, f.key, n);
         }
     }
+    // stale replay files of earlier runs are removed: replays/<ID> reflects this run only
+    if let Ok(rd) = std::fs::read_dir(verif_root().join("replays").join(&ctx.property)) {
+        for e in rd.flatten() {
+            let _ = std::fs::remove_file(e.path());
+        }
+    }
     let mut harness_bug = false;
     let mut n_viol = 0;
     for (key, f) in violations.iter() {
